@@ -238,7 +238,37 @@ fn exh_case_tier(idx: u64, ctx: &mut Ctx) -> CaseResult {
     }
 }
 
+/// The key_ops position holds a *set* of labels: every registered operation and any number of
+/// text labels must be classified and kept, whatever the size of the array.
+fn check_key_ops_position(g: &mut Gen, ctx: &mut Ctx) -> CaseResult {
+    let n_int = g.below(11);
+    let n_text = g.below(8);
+    let mut ops: Vec<Item> = (0..n_int).map(|i| Item::Int(1 + i as i128)).collect();
+    for i in 0..n_text {
+        ops.push(Item::Text(format!("t{}", i)));
+    }
+    if ops.is_empty() {
+        ops.push(Item::Int(1));
+    }
+    let p = g.permutation(ops.len());
+    let ops: Vec<Item> = p.into_iter().map(|i| ops[i].clone()).collect();
+    ctx.class("gen:key-ops-position");
+    ctx.nontrivial(hash_str(&format!("ko|{:?}", ops)));
+    ctx.sample_with(|| format!("key_ops position with {} labels", ops.len()));
+    let b = encode(&Item::Map(vec![(Item::Int(1), Item::Int(1)), (Item::Int(4), Item::Array(ops.clone()))]));
+    let k = CoseKey::from_slice(&b).map_err(|e| format!("key whose key_ops holds {} distinct registered / text labels rejected: {:?} ({})", ops.len(), e, hex(&b)))?;
+    let mut got: Vec<L> = k.key_ops.iter().map(|o| crate::model::reg_label_to_l(reg::KEY_OPERATION, o)).collect::<Result<_, _>>()?;
+    let mut want: Vec<L> = ops.iter().map(|o| crate::model::m_label(o).unwrap()).collect();
+    got.sort();
+    want.sort();
+    ensure!(got == want, "key_ops labels classified as {:?}, wire held {:?}", got, want);
+    Ok(())
+}
+
 fn case(g: &mut Gen, ctx: &mut Ctx) -> CaseResult {
+    if g.ratio(1, 10) {
+        return check_key_ops_position(g, ctx);
+    }
     let rs = regs();
     let r = &rs[g.below(rs.len())];
     match g.weighted(&[5, 2, 2]) {
